@@ -331,6 +331,19 @@ pub fn t_fn_values_and_lazy() -> String {
         std::iter::once(4).chain(vec![5, 6]).collect::<Vec<i32>>(),
         names.first().copied().map(str::len),
         Some(2.5_f64).map(f64::abs),
+        {
+            let mut positions = 0usize..;
+            let mut kept = vec!['a', 'b', 'c', 'd', 'e'];
+            let drop = [1usize, 3];
+            kept.retain(|_| positions.next().is_some_and(|i| !drop.contains(&i)));
+            kept
+        },
+        {
+            let mut labels = (1..).map(|k| format!("c{}", k));
+            let first = labels.next();
+            let second = labels.next();
+            (first, second)
+        },
     ))
 }
 
